@@ -417,7 +417,7 @@ package shell_operator
 // rate-limit wait of the same hook. C01/C06: monitors are unlocked only after a successful
 // Synchronization.
 //@ func (*ShellOperator).taskHandleHookRun
-//@   prop C04, C18, C14, C06
+//@   prop C04, C18, C14, C06, C01
 //@   requires op.HookManager != nil && op.TaskQueues != nil && t != nil
 //@   modifies hook.nRun, hook.ranContexts, ranErr, nCombine, lastCombine, allMergedAllowFailure, nUpdateMeta, lastMeta, nUnlock, unlockIds, nUnlockAll, hook.lastWaitHook, hook.lastWaitErr, hook.lastHookResult, hook.lastHookErr, nSetAdm, lastAdmProp, nSend, lastSendErr, objectpatch.nPatchExec, objectpatch.nExec, objectpatch.execOp, objectpatch.execErr, objectpatch.lastSpecs, objectpatch.lastDecodeErr, objectpatch.nDocs, objectpatch.docLog, objectpatch.lastDecErr, gotMeta, metaEpoch, rate.lastWaitLimiter, rate.lastLimiterErr
 //@   requires [ghost-wf] hook.nProcess >= 0 && !hook.fsExists[""]
